@@ -380,26 +380,35 @@ def run(m):
     return {"violated": out != ["<news>|<sport>|<base>"] * 2, "observed": out, "witness": "block-stacks-survive-the-chain"}
 '''
 
-for _sfx in ("", "_async"):
+def extends_node_contract(prop, sfx, failing_callees=False):
+    """failing_callees: the chain walk and the base template's render may also raise any Liquid error
+    (C02: nothing but Liquid errors and the StopRender interrupt leaves the tag)"""
     def _mkext(sfx):
-        @contract(EXT + ":ExtendsNode.render_to_output" + sfx, prop="C18", name=f"ExtendsNode.render_to_output{sfx}[renders the base of this chain, then leaves no block stacks behind]")
+        label = "renders the base of this chain, then leaves no block stacks behind" if not failing_callees else "only Liquid errors and StopRender escape, whatever the chain walk and the base template raise"
+        @contract(EXT + ":ExtendsNode.render_to_output" + sfx, prop=prop, name=f"ExtendsNode.render_to_output{sfx}[{label}]")
         def en(c):
             env = mk_env(c)
             ctx = mk_ctx(c, env)
             base = c.obj(TEMPLATE, "base_template", env=env, name=c.str("base_name"))
             self = c.obj(EXT + ":ExtendsNode", "extends", token=NONE, name=c.str("parent_name"))
 
+            def failures(st, classes):
+                return [(st.fork(), Raised(VExc(cls, (const(cls),)))) for cls in classes] if failing_callees else []
+
             def build(eng, st, a, k):
                 st.log.append(("build", a[0], a[1]))
-                return [(st, base)]
+                return [(st.fork(), base)] + failures(st, ("TemplateInheritanceError", "TemplateNotFoundError", "LiquidSyntaxError", "RequiredBlockError"))
             c.summary(EXT + ":_build_block_stacks" + sfx, build)
 
             def render(eng, st, a, k):
-                ns = st.deref(st.deref(st.deref(a[1]).fields["tag_namespace"]).items["extends"]) if a[1] == ctx else None
                 st.log.append(("render", a[0], a[1]))
-                return [(st, VInt(z3.Int("chars")))]
+                return [(st.fork(), VInt(z3.Int("chars")))] + failures(st, ("LiquidTypeError", "UndefinedError", "RequiredBlockError", "OutputStreamLimitError"))
             c.summary(TEMPLATE + ".render_with_context" + sfx, render)
             c.call(ctx, c.obj("io:StringIO", "buffer", __text__=c.str("out")), self_val=self)
+            if failing_callees:
+                c.raises("LiquidError", "LiquidInterrupt", "StopRender")   # StopRender is caught by render_with_context (structural: chain-shape)
+                c.replay("code", code=REPLAY_TWO_CHAINS)
+                return
             c.raises("StopRender")
             c.ensures("never-returns-normally(the-rest-of-a-child-template-is-not-rendered)", lambda r: z3.BoolVal(False))
 
@@ -412,4 +421,8 @@ for _sfx in ("", "_async"):
             c.ensures_exc("base-of-this-chain-rendered-in-this-context-and-block-stacks-cleared", after)
             c.assume_note("_build_block_stacks and render_with_context are callees (their own obligations: extends-cycle guard C09, block resolution above)")
             c.replay("code", code=REPLAY_TWO_CHAINS)
-    _mkext(_sfx)
+    _mkext(sfx)
+
+
+for _sfx in ("", "_async"):
+    extends_node_contract("C18", _sfx)
